@@ -3,14 +3,17 @@ package props
 import (
 	"bufio"
 	"fmt"
+	"os"
 	"runtime"
 	"runtime/debug"
 
 	"github.com/mandykoh/prism/meta/icc"
 
+	"verif.local/sim/core"
 	"verif.local/sim/refmodel"
 	"verif.local/sim/simio"
 	"verif.local/sim/tape"
+	"verif.local/simrt"
 )
 
 // C09 — hostile input cannot crash the caller, hang, or balloon memory.
@@ -21,7 +24,7 @@ func init() { register(c09{}) }
 func (c09) ID() string    { return "C09" }
 func (c09) Level() string { return "exploration" }
 func (c09) Rule() string {
-	return "fault-driven: valid generated or seed files (PNG/JPEG/WebP/ICC, ICC profiles also embedded in images) receive 1-3 stored-byte faults (length/count/offset/dimension fields overwritten with boundary values incl. sums that wrap 2^32, bit flips, type overwrites, stored truncation, self-splice), plus amplification workloads (mluc records sharing one string, tags sharing one data area), random bytes behind valid signatures and truncations; the enumerated part walks every length/count/offset/dimension field of every corpus file x every boundary value. Each case runs in a worker process that executes one case at a time: Load (specific + auto), ICCProfileData, ICCProfile, Description / ReadProfile + Description. Invariants: no panic escapes, TotalAlloc delta <= 4 MiB + 32*len(input) (4200*len for PNG carrying iCCP: deflate expands at most 1032:1), under FULL delivery at most 100+2*len(input) Read calls, watchdog on the whole run. Non-trivial: a stored fault or amplification was applied and the code under test consumed >= 1 byte; distinct = hash(input bytes, calls, delivery log)."
+	return "fault-driven: valid generated or seed files (PNG/JPEG/WebP/ICC, ICC profiles also embedded in images) receive 1-3 stored-byte faults (length/count/offset/dimension fields overwritten with boundary values incl. sums that wrap 2^32, bit flips, type overwrites, stored truncation, self-splice), plus amplification workloads (mluc records sharing one string, tags sharing one data area), random bytes behind valid signatures and truncations; the enumerated part walks every length/count/offset/dimension field of every corpus file x every boundary value. Each case runs in a worker process that executes one case at a time: Load (specific + auto), ICCProfileData, ICCProfile, Description / ReadProfile + Description. Invariants: no panic escapes, the meta packages (built from a copy with a step counter before every statement) execute at most 200000 + 64*len(input) statements - the deterministic stand-in for 'time grows with the input size, not with numbers written in it', aborting the run at four times that -, TotalAlloc delta <= 4 MiB + 32*len(input) (4200*len for PNG carrying iCCP: deflate expands at most 1032:1), under FULL delivery at most 100+2*len(input) Read calls, watchdog on the whole run. Non-trivial: a stored fault or amplification was applied and the code under test consumed >= 1 byte; distinct = hash(input bytes, calls, delivery log)."
 }
 func (c09) Exhaustive(tier string) string {
 	return "the field x boundary-value matrix over the corpus files (enumerated part); everything else is seeded"
@@ -164,11 +167,17 @@ func sniffLoader(b []byte) Loader {
 }
 
 type c09call struct {
-	Name  string `json:"call"`
-	Alloc uint64 `json:"alloc_bytes"`
-	Panic string `json:"panic,omitempty"`
-	Note  string `json:"result,omitempty"`
+	Name   string `json:"call"`
+	Alloc  uint64 `json:"alloc_bytes"`
+	Steps  int64  `json:"steps"`
+	Panic  string `json:"panic,omitempty"`
+	Budget bool   `json:"step_budget_exceeded,omitempty"`
+	Note   string `json:"result,omitempty"`
 }
+
+// instrumentedMeta: the check script builds C09 against a copy of the tree whose
+// meta packages carry a step counter before every statement (VERIF_INSTR_META=1).
+var instrumentedMeta = os.Getenv("VERIF_INSTR_META") == "1"
 
 func totalAlloc() uint64 {
 	var ms runtime.MemStats
@@ -180,14 +189,20 @@ func totalAlloc() uint64 {
 func guarded(name string, calls *[]c09call, f func() string) (ok bool) {
 	c := c09call{Name: name}
 	before := totalAlloc()
+	steps0 := simrt.Steps()
 	func() {
 		defer func() {
 			if p := recover(); p != nil {
-				c.Panic = fmt.Sprint(p)
+				if _, ok := p.(simrt.StepBudgetExceeded); ok {
+					c.Budget = true
+				} else {
+					c.Panic = fmt.Sprint(p)
+				}
 			}
 		}()
 		c.Note = trunc(f(), 120)
 	}()
+	c.Steps = simrt.Steps() - steps0
 	c.Alloc = totalAlloc() - before
 	*calls = append(*calls, c)
 	return c.Panic == ""
@@ -374,6 +389,11 @@ func (c09) Run(t *tape.Tape, st *Stats) *Violation {
 
 	src := simio.NewSource(simio.Bytes(data), cfg)
 	var calls []c09call
+	// steps: instrumented statements executed by prism's meta packages; the
+	// budget that aborts a run is four times the bound that is a violation
+	stepBound := int64(200000) + 64*int64(len(data))
+	simrt.ResetSteps(4 * stepBound)
+	defer simrt.ResetSteps(0)
 	if isICC {
 		var prof *icc.Profile
 		viaBufio := t.Bool()
@@ -435,12 +455,25 @@ func (c09) Run(t *tape.Tape, st *Stats) *Violation {
 	}
 	var total, worst uint64
 	worstCall := ""
+	var steps, worstSteps int64
+	stepCall := ""
 	for _, c := range calls {
 		total += c.Alloc
 		if c.Alloc >= worst {
 			worst, worstCall = c.Alloc, c.Name
 		}
+		steps += c.Steps
+		if c.Steps >= worstSteps {
+			worstSteps, stepCall = c.Steps, c.Name
+		}
 	}
+	tripped := simrt.Tripped()
+	simrt.ResetSteps(0)
+	st.CodeSteps += steps
+	if instrumentedMeta && steps == 0 && src.Delivered > 64 {
+		panic(&core.HarnessError{Msg: "C09 was built with VERIF_INSTR_META=1 but no instrumented step was counted: the meta packages are not instrumented"})
+	}
+	st.Probe("steps_over_half_bound", steps > stepBound/2)
 	if total > 1<<28 {
 		debug.FreeOSMemory() // keep a ballooning tree from exhausting the machine across 16 workers
 	}
@@ -450,7 +483,7 @@ func (c09) Run(t *tape.Tape, st *Stats) *Violation {
 	}
 	render := func() interface{} {
 		return map[string]interface{}{"input": desc, "input_class": class, "input_len": len(data), "faults": faults, "delivery": cfg.String(),
-			"delivery_log": src.LogString(), "calls": calls, "alloc_total": total, "alloc_bound": bound, "source_read_calls": src.Calls, "input_hex": hex(data, 600)}
+			"delivery_log": src.LogString(), "calls": calls, "steps": steps, "step_bound": stepBound, "alloc_total": total, "alloc_bound": bound, "source_read_calls": src.Calls, "input_hex": hex(data, 600)}
 	}
 	if st.WantSample() {
 		st.Sample(render())
@@ -463,6 +496,10 @@ func (c09) Run(t *tape.Tape, st *Stats) *Violation {
 	if total > bound {
 		return &Violation{Class: "alloc-balloon", Sig: worstCall + ":alloc-balloon",
 			Detail: fmt.Sprintf("%d bytes allocated for a %d-byte input (bound %d); largest share %d in %s", total, len(data), bound, worst, worstCall), Render: render()}
+	}
+	if tripped || steps > stepBound {
+		return &Violation{Class: "step-budget", Sig: stepCall + ":steps-unbounded",
+			Detail: fmt.Sprintf("%d instrumented statements executed for a %d-byte input (bound %d, run aborted at %d: %v); largest share %d in %s - time grows with numbers written in the input", steps, len(data), stepBound, 4*stepBound, tripped, worstSteps, stepCall), Render: render()}
 	}
 	if src.Storm {
 		return &Violation{Class: "read-storm", Sig: calls[0].Name + ":read-storm",
